@@ -113,7 +113,7 @@ def _read_all(fd_map, deadline):
     return open_fds
 
 
-def in_fresh_fork(fn, args=(), timeout=120.0):
+def in_fresh_fork(fn, args=(), timeout=300.0):
     """Run fn(*args) in a child forked from this (pristine) process and
     return its result.  Raises HarnessError on crash / timeout."""
     sys.stdout.flush()
@@ -288,7 +288,7 @@ class Agg(object):
 
 
 def run_batch(workload, jobs, workers, timeout, keep_digests=False,
-              job_timeout=600.0, stop_on_violation=False, findings=()):
+              job_timeout=3000.0, stop_on_violation=False, findings=()):
     """Run workload.run_job(job) for every job, each in its own child forked
     from the pristine orchestrator, at most `workers` at a time (dynamic
     scheduling: results do not depend on the worker count).  run_job returns a
